@@ -63,6 +63,9 @@ pub struct ClientView {
     pub last_shared: HashMap<String, usize>,
     pub forwards_seen: u64,
     pub max_window: usize,
+    /// PUBCOMPs received for this client's own QoS 2 publishes
+    pub pubcomp_received: u64,
+    pub acks_received: u64,
 }
 
 pub fn parse_serial(payload: &[u8]) -> Option<u64> {
@@ -354,13 +357,28 @@ impl Model {
                 }
                 Notification::DeviceAck(a) => {
                     if let Some(e) = ack_to_exp(a) {
+                        view.acks_received += 1;
+                        if matches!(e, ExpAck::PubComp(_)) {
+                            view.pubcomp_received += 1;
+                        }
                         if matches!(e, ExpAck::PubRel(_)) {
                             if let ExpAck::PubRel(id) = e {
                                 view.pubcomp_due.push(id);
                             }
                         }
                         let c = &mut self.conns[serial];
-                        let front = c.expected_acks.pop_front();
+                        let mut front = c.expected_acks.pop_front();
+                        // optional entries may be skipped
+                        loop {
+                            match (&front, &e) {
+                                (Some(ExpAck::PubRelResumed(a)), ExpAck::PubRel(b)) if a == b => {
+                                    front = Some(ExpAck::PubRel(*b));
+                                    break;
+                                }
+                                (Some(ExpAck::PubRelResumed(_)), _) => front = c.expected_acks.pop_front(),
+                                _ => break,
+                            }
+                        }
                         if flags.acks && !tainted {
                             match front {
                                 Some(x) if x == e => {}
@@ -697,7 +715,7 @@ impl Model {
             }
             if flags.acks {
                 ensure!(
-                    c.expected_acks.is_empty(),
+                    c.expected_acks.iter().all(|a| matches!(a, ExpAck::PubRelResumed(_))),
                     "acks:missing_at_idle",
                     "client {} is still owed {:?} although the broker is idle",
                     c.client_id,
